@@ -1,13 +1,199 @@
-//! Verification shim: abstract hash (probe version: toy mixing into 8 bytes, rest zero).
-pub trait Digest { fn new() -> Self; fn update(&mut self, data: impl AsRef<[u8]>); fn finalize(self) -> Output; }
-pub struct Output(pub [u8; 64]);
-impl Output { pub fn as_slice(&self) -> &[u8] { &self.0 } }
-pub struct Sha512 { acc: u64, len: u64 }
-impl Digest for Sha512 {
-    fn new() -> Self { Sha512 { acc: 0, len: 0 } }
-    fn update(&mut self, data: impl AsRef<[u8]>) {
-        for b in data.as_ref() { self.acc = self.acc.rotate_left(5) ^ (*b as u64) ^ self.len; self.len += 1; }
-    }
-    fn finalize(self) -> Output { let mut o = [0u8; 64]; o[..8].copy_from_slice(&(self.acc ^ (self.len << 56)).to_le_bytes()); Output(o) }
+//! Verification shim for ed25519-dalek 1.0.
+//!
+//! * `Sha512` / `Digest`: an abstract hash. The output is a deterministic xor-rotate mixing of the exact pre-image
+//!   bytes and their count (cheap to bit-blast); collision freedom is NOT provided by this function and is assumed
+//!   by harnesses only for the specific digests they name. The full pre-image of the most recent hash is recorded
+//!   in `LAST` so that harnesses can inspect exactly what the real `digest()` functions feed to the hasher (C20).
+//! * Keys and signatures: compile-level model with *ideal* semantics, used only so that the real `crypto` crate builds
+//!   in profile R (public key bytes = first half of the keypair bytes; a signature is `public key || first 32 bytes of
+//!   the message padded`; verification is equality). Nothing about real ed25519 arithmetic is claimed anywhere.
+pub const PRE_CAP: usize = 160;
+pub struct Recorded {
+    pub bytes: [u8; PRE_CAP],
+    pub len: usize,
 }
-impl Sha512 { pub fn digest(data: impl AsRef<[u8]>) -> Output { let mut h = <Sha512 as Digest>::new(); Digest::update(&mut h, data); Digest::finalize(h) } }
+pub struct Cell<T>(std::cell::UnsafeCell<T>);
+unsafe impl<T> Sync for Cell<T> {}
+impl<T> Cell<T> {
+    pub const fn new(v: T) -> Self {
+        Cell(std::cell::UnsafeCell::new(v))
+    }
+    #[allow(clippy::mut_from_ref)]
+    pub fn get(&self) -> &mut T {
+        unsafe { &mut *self.0.get() }
+    }
+}
+/// pre-image of the hash computed most recently (harness-side observation)
+pub static LAST: Cell<Recorded> = Cell::new(Recorded { bytes: [0; PRE_CAP], len: 0 });
+/// recording costs symbolic-execution time; harnesses that do not inspect pre-images leave it off
+pub static RECORD: Cell<bool> = Cell::new(false);
+
+pub trait Digest {
+    fn new() -> Self;
+    fn update(&mut self, data: impl AsRef<[u8]>);
+    fn finalize(self) -> Output;
+}
+pub struct Output(pub [u8; 64]);
+impl Output {
+    pub fn as_slice(&self) -> &[u8] {
+        &self.0
+    }
+}
+pub struct Sha512 {
+    acc: u64,
+    len: u64,
+}
+impl Digest for Sha512 {
+    fn new() -> Self {
+        if *RECORD.get() {
+            LAST.get().len = 0;
+        }
+        Sha512 { acc: 0, len: 0 }
+    }
+    fn update(&mut self, data: impl AsRef<[u8]>) {
+        let rec = *RECORD.get();
+        for b in data.as_ref() {
+            self.acc = self.acc.rotate_left(5) ^ (*b as u64) ^ self.len;
+            if rec {
+                let l = LAST.get();
+                if l.len < PRE_CAP {
+                    let i = l.len;
+                    l.bytes[i] = *b;
+                }
+                l.len += 1;
+            }
+            self.len += 1;
+        }
+    }
+    fn finalize(self) -> Output {
+        let mut o = [0u8; 64];
+        let v = (self.acc ^ (self.len << 56)).to_le_bytes();
+        let mut i = 0;
+        while i < 8 {
+            o[i] = v[i];
+            i += 1;
+        }
+        Output(o)
+    }
+}
+impl Sha512 {
+    pub fn digest(data: impl AsRef<[u8]>) -> Output {
+        let mut h = <Sha512 as Digest>::new();
+        Digest::update(&mut h, data);
+        Digest::finalize(h)
+    }
+}
+
+// ------------------------------------------------------------------ ideal signature scheme (profile R compile model)
+pub mod ed25519 {
+    #[derive(Debug)]
+    pub struct Error;
+    impl std::fmt::Display for Error {
+        fn fmt(&self, f: &mut std::fmt::Formatter) -> std::fmt::Result {
+            f.write_str("signature error")
+        }
+    }
+    impl std::error::Error for Error {}
+    pub mod signature {
+        pub trait Signature: Sized {
+            fn from_bytes(bytes: &[u8]) -> Result<Self, super::Error>;
+        }
+    }
+}
+pub use ed25519::Error as SignatureError;
+#[derive(Clone, Copy)]
+pub struct Signature(pub [u8; 64]);
+impl Signature {
+    pub fn to_bytes(&self) -> [u8; 64] {
+        self.0
+    }
+}
+impl ed25519::signature::Signature for Signature {
+    fn from_bytes(bytes: &[u8]) -> Result<Self, ed25519::Error> {
+        if bytes.len() != 64 {
+            return Err(ed25519::Error);
+        }
+        let mut a = [0u8; 64];
+        a.copy_from_slice(bytes);
+        Ok(Signature(a))
+    }
+}
+#[derive(Clone, Copy)]
+pub struct PublicKey(pub [u8; 32]);
+fn msg32(m: &[u8]) -> [u8; 32] {
+    let mut o = [0u8; 32];
+    let mut i = 0;
+    while i < 32 && i < m.len() {
+        o[i] = m[i];
+        i += 1;
+    }
+    o
+}
+impl PublicKey {
+    pub fn from_bytes(b: &[u8]) -> Result<Self, ed25519::Error> {
+        if b.len() != 32 {
+            return Err(ed25519::Error);
+        }
+        let mut a = [0u8; 32];
+        a.copy_from_slice(b);
+        Ok(PublicKey(a))
+    }
+    pub fn to_bytes(&self) -> [u8; 32] {
+        self.0
+    }
+    pub fn verify_strict(&self, msg: &[u8], sig: &Signature) -> Result<(), ed25519::Error> {
+        let m = msg32(msg);
+        if sig.0[..32] == self.0[..] && sig.0[32..] == m[..] {
+            Ok(())
+        } else {
+            Err(ed25519::Error)
+        }
+    }
+}
+pub struct Keypair {
+    pub secret: [u8; 32],
+    pub public: PublicKey,
+}
+impl Keypair {
+    pub fn generate<R>(_rng: &mut R) -> Self {
+        Keypair { secret: [7; 32], public: PublicKey([7; 32]) }
+    }
+    pub fn from_bytes(b: &[u8]) -> Result<Self, ed25519::Error> {
+        if b.len() != 64 {
+            return Err(ed25519::Error);
+        }
+        let mut s = [0u8; 32];
+        let mut p = [0u8; 32];
+        s.copy_from_slice(&b[..32]);
+        p.copy_from_slice(&b[32..]);
+        Ok(Keypair { secret: s, public: PublicKey(p) })
+    }
+    pub fn to_bytes(&self) -> [u8; 64] {
+        let mut o = [0u8; 64];
+        o[..32].copy_from_slice(&self.secret);
+        o[32..].copy_from_slice(&self.public.0);
+        o
+    }
+}
+pub trait Signer<S> {
+    fn sign(&self, msg: &[u8]) -> S;
+}
+impl Signer<Signature> for Keypair {
+    fn sign(&self, msg: &[u8]) -> Signature {
+        let mut o = [0u8; 64];
+        o[..32].copy_from_slice(&self.public.0);
+        o[32..].copy_from_slice(&msg32(msg));
+        Signature(o)
+    }
+}
+pub fn verify_batch(messages: &[&[u8]], signatures: &[Signature], keys: &[PublicKey]) -> Result<(), ed25519::Error> {
+    if messages.len() != signatures.len() || messages.len() != keys.len() {
+        return Err(ed25519::Error);
+    }
+    let mut i = 0;
+    while i < messages.len() {
+        keys[i].verify_strict(messages[i], &signatures[i])?;
+        i += 1;
+    }
+    Ok(())
+}
